@@ -314,8 +314,11 @@ func decryptSymmetricChaCha20Poly1305(ciphertext []byte, algorithm string, key [
 	}
 
 	// Add the tag at the end of the ciphertext
-	ciphertext = append(ciphertext, tag...)
-	return aead.Open(nil, nonce, ciphertext, associatedData)
+	// Use a new slice: appending to ciphertext would write into the caller's spare capacity
+	sealed := make([]byte, len(ciphertext)+len(tag))
+	copy(sealed, ciphertext)
+	copy(sealed[len(ciphertext):], tag)
+	return aead.Open(nil, nonce, sealed, associatedData)
 }
 
 func getChaCha20Poly1305Cipher(algorithm string, key []byte, nonce []byte) (aead cipher.AEAD, err error) {
